@@ -16,7 +16,7 @@ claimed={
  "C13": ("Typed readers of the message layer (GetChar/GetInt*/GetBytes/GetRemainingBytes/GetString/GetStringWithMaxSize/SkipString) over 2-3 adversarial frames of symbolic length and content in both modes: no panic (bounds, nil, make, division all checked), allocations <= bytes delivered + 64, byte-wise loops end within input size + 4 iterations (unwinding assertion), caps honoured.", "5.C13",
          "frames <= 12 bytes each (small-input progress variant); handshake-level and text parsers are being added (not yet covered)"),
  "C14": ("Put*/Get* of every integer width, char and NUL-free strings <= 6 bytes against an independently written big-endian reference layout, and decode of the emitted bytes re-cut at every symbolic 2-frame split; NUL truncation on send.", "5.C14",
-         "strings <= 6 bytes whose first byte is not the in-band NULL marker 0xAD (never the first byte of valid UTF-8); doubles not yet covered"),
+         "strings <= 6 bytes whose first byte is not the in-band NULL marker 0xAD (never the first byte of valid UTF-8); doubles: each direction against the format (exponents within [-1100,1100]), the round-trip error bound is not decided"),
  "C15": ("Export from any exportable stream state and import around another connection: all fields the send/receive paths read agree, an untouched peer exchanges protected frames with the imported stream both ways and the result is exportable again (inductive over hand-offs); export refused exactly on the nine documented conditions; truncated / bad-magic / wrong-version blobs rejected.", "5.C15",
          "ideal AEAD; peer address <= 8 bytes; payloads <= 4 KiB in the continuation step"),
  "C03": ("Handshake decided piecewise on the real code: negotiateSecurity+handleClientAuthentication / handleServerAuthentication (arbitrary parsed peer configuration, arbitrary bitmask replies, nondeterministic method outcome), negotiateSecurity+setupStreamEncryption (arbitrary peer levels, cipher lists, key presence, either ECDH outcome), and glue harnesses showing performFullAuthentication / ServerHandshakeWithMessage run the three steps once, in order, on the returned negotiation.", "5.C03",
@@ -38,13 +38,13 @@ claimed={
  "C18": ("Real validateFSAuthPath/fsAddrLeaf/verifyFSPathEndpoint over arbitrary paths (<= 24/30 bytes) and connection addresses against independently written leaf shapes: accepted => directly under /tmp, one safe component, recognised shape, address-qualified names name the connected endpoint; real performFSAuthenticationServer against every kind of object at the agreed path, and real performFSAuthenticationClient against arbitrary supplied paths, on a filesystem model.", "5.C18",
          "IPv4 endpoints (IPv6 texts only as an uninterpreted function); filesystem effects decided on the engine's filesystem model (single owner, sequential), replayed natively on real objects under /tmp"),
  "C11": ("validateTokenTiming over an arbitrary clock, claim types and maximum age; the server and client token flows with the real third / second step and the real deferred-failure logic, earlier steps and the MAC / key derivations replaced by stubs of arbitrary outcome: success only if no step failed, the peer reported OK, echoed identity and nonce, and sent exactly the expected MAC with nothing trailing; identity recorded is the one validation established.", "5.C11",
-         "token parsing, signature recomputation and HMAC/HKDF are stubs (seams); standalone VerifyIDToken not yet covered"),
+         "signature recomputation and HMAC/HKDF are stubs (seams); token contents are four concrete shapes (JSON modelled for concrete documents); standalone VerifyIDToken not covered"),
  "C19": ("Real readWithContext / writeWithContext with a harness context implementing the context package's AfterFunc hook and a connection that completes, fails or stalls until closed, under every cancellation timing: cancelled => returns the context's error with the connection closed (a stalled call is unblocked); never-cancelled or non-cancellable context => exactly the I/O's result.", "5.C19",
-         "sequential model of a blocked call (the harness fires the cancellation inside Read/Write); latency, kernel unblock semantics and TLS are outside; context threading through handshakes not yet covered"),
+         "sequential model of a blocked call (the harness fires the cancellation inside Read/Write); latency and kernel unblock semantics are outside; context threading is asserted in every handshake harness (marked context), the TLS tunnel over an I/O-pattern model of crypto/tls"),
  "C17": ("Lock-set consistency of the shared state, decided on every path of the real code: every unordered pair of 17 session-cache / session-entry operations (store, three lookups, map, invalidate, expiry sweep, renew, expire test, snapshot, dump, size, clear, accessors) from a cache with entries in arbitrary expiry states accesses each shared field or map under a common mutex (writer holding it exclusively), and an invalidated id is unreachable afterwards; two handshakes built on one shared SecurityConfig touch it read-only and each advertises its own ephemeral key; one send and one receive on an established stream (cleartext or keyed, first protected frames exchanged or not) touch disjoint state. Lock-set violations are confirmed by running the same pair in two goroutines under the race detector.", "5.C17",
          "lock-set discipline is a sufficient condition for race freedom, checked per pair of operations (Eraser-style, made path-complete by symbolic execution); interleaving-dependent behaviour beyond lock discipline (whole concurrent handshakes against one server, CCB broker writers) is not modelled; ECDH keys modelled as distinct opaque values"),
  "C20": ("Real acceptReversed over up to three arriving connections with arbitrary hellos (command, connect id present/absent/other/unreadable) and a cancelled context; real proxyRequestOnStream against an arbitrary broker reply and hello.", "5.C20",
-         "message layer replaced by typed stubs; the goroutine race in dialStandard and the Happy-Eyeballs timers of Dial are outside (no thread model)"),
+         "message layer replaced by typed stubs; Dial decided in sequential mode (timers never fire, go runs to completion); the goroutine race in dialStandard and staggered concurrent attempts are outside (no thread model)"),
 }
 checks=[]
 for i in ids:
